@@ -340,27 +340,7 @@ pub fn run(tier: Tier) -> i32 {
         }
     }
     // (v) sanitizer side results (TSan / Miri), produced by ./check in the thorough tier
-    let mut san = J::obj();
-    if let Ok(path) = std::env::var("VERIF_SAN_RESULT") {
-        if let Ok(text) = std::fs::read_to_string(&path) {
-            if let Ok(j) = J::parse(&text) {
-                if let Some(arr) = j.get("steps").and_then(|a| a.arr()) {
-                    for s in arr {
-                        let name = s.get("name").and_then(|x| x.str()).unwrap_or("?").to_string();
-                        let status = s.get("status").and_then(|x| x.str()).unwrap_or("?");
-                        let reports = s.get("reports").and_then(|x| x.int()).unwrap_or(0);
-                        t.add(&format!("sanitizer/{}/reports", name), reports as u64);
-                        match status {
-                            "clean" => t.count(&format!("sanitizer/{}/clean", name)),
-                            "report" => viol(&mut t, &format!("sanitizer/{}", name), format!("{} reported {} problem(s): {}", name, reports, s.get("detail").and_then(|x| x.str()).unwrap_or("")), None),
-                            other => t.inconclusive.push(format!("sanitizer step {}: {} ({})", name, other, s.get("detail").and_then(|x| x.str()).unwrap_or(""))),
-                        }
-                    }
-                }
-                san = j;
-            }
-        }
-    }
+    let san = crate::run::fold_sanitizer_results(&mut t, false);
     if let Err(e) = &pre {
         t.inconclusive.push(e.clone());
     }
